@@ -103,6 +103,10 @@ def cfg_phasor(tier, seed):
     # fixed: the documented default plane, and a scalar-amplitude plane with explicit off-centre mask
     out.append({'shape': [0, 0], 'amp': 'scalar', 'opd': 'scalar', 'mask': 'none', 'segs': [[]], 'cls': 'Plane', 'inc': 'after-plane', 'default': True})
     out.append({'shape': [0, 0], 'amp': 'scalar', 'opd': 'scalar', 'mask': 'none', 'segs': [[]], 'cls': 'Plane', 'inc': 'default', 'default': True})
+    for corner in ([[0, 3], [1, 3], [0, 2]], [[2, 0]], [[2, 3], [2, 2]]):
+        out.append({'shape': [0, 0], 'amp': 'scalar', 'opd': 'scalar', 'mask': 'none', 'segs': [[]], 'cls': 'Plane', 'inc': 'after-offcentre', 'default': True, 'corner': corner})
+        for cls in ('Plane', 'Pupil'):
+            out.append({'shape': [3, 4], 'amp': 'scalar', 'opd': 'scalar', 'mask': 'none', 'segs': [[]], 'cls': cls, 'inc': 'after-offcentre', 'corner': corner})
     out.append({'shape': [3, 3], 'amp': 'scalar', 'opd': 'array', 'mask': '2d', 'segs': [[[0, 0], [1, 1]]], 'cls': 'Pupil', 'inc': 'default'})
     out.append({'shape': [3, 3], 'amp': 'scalar', 'opd': 'scalar', 'mask': '2d', 'segs': [[[0, 1], [1, 1], [1, 2]]], 'cls': 'Pupil', 'inc': 'default'})
     out.append({'shape': [2, 3], 'amp': 'array', 'opd': 'scalar', 'mask': '3d', 'segs': [[[0, 0], [1, 2]], [[0, 1], [1, 1]]], 'cls': 'Plane', 'inc': 'after-plane'})
@@ -120,6 +124,14 @@ def run_phasor(W, cfg):
     elif cfg['inc'] == 'after-plane':
         s0 = shp if not default else (2, 2)
         p0 = lt.Plane(amplitude=W.reals('a0', s0, nz=True), opd=W.reals('o0', s0))
+        w = lt.Wavefront(lam) * p0
+    elif cfg['inc'] == 'after-offcentre':
+        # a field that sits off the plane centre (non-zero offset), non-square: what follows must act on it where it is
+        s0 = (3, 4)
+        m0 = rnp.zeros(s0, dtype=int)
+        for r, c in cfg.get('corner', [[0, 3], [1, 3], [0, 2]]):
+            m0[r, c] = 1
+        p0 = lt.Plane(amplitude=W.reals('a0', s0, nz=True), opd=W.reals('o0', s0), mask=m0)
         w = lt.Wavefront(lam) * p0
     else:
         s0 = (2, 2)
